@@ -27,6 +27,7 @@ class H:
 
 
 SETS = {}
+MEM_LIMIT_GB = 14
 
 
 def register(setname, harnesses, module=None):
@@ -58,13 +59,20 @@ def run_harness(h, playback=False):
     if playback:
         cmd += ['-Z', 'concrete-playback', '--concrete-playback=print']
     t0 = time.time()
+
+    def limit():
+        import resource
+        # CBMC can exhaust the machine (62 GB, no swap) on a harness that is too ambitious: cap the address space
+        resource.setrlimit(resource.RLIMIT_AS, (MEM_LIMIT_GB << 30, MEM_LIMIT_GB << 30))
+        os.setsid()
     try:
-        r = subprocess.run(cmd, cwd=cwd, env=env, stdout=subprocess.PIPE, stderr=subprocess.STDOUT, text=True, timeout=h.timeout)
+        r = subprocess.run(cmd, cwd=cwd, env=env, stdout=subprocess.PIPE, stderr=subprocess.STDOUT, text=True, timeout=h.timeout, preexec_fn=limit)
         out = r.stdout
         timed_out = False
     except subprocess.TimeoutExpired as e:
         out = (e.stdout or b'').decode() if isinstance(e.stdout, bytes) else (e.stdout or '')
         timed_out = True
+        subprocess.run('pkill -f "%s" ; pkill -f "cbmc.*%s"' % (h.qual, h.name), shell=True)
     return out, time.time() - t0, timed_out, ' '.join(cmd)
 
 
@@ -151,3 +159,27 @@ register('rc_glue', [
     H('rc_try_from_rng_default_32', 'C09'),
     H('rc_try_from_rng_default_64', 'C09'),
 ])
+register('blockrng', [
+    H('blockrng_next_u32', 'C05 C02 C03 C14', note='BlockRng::next_u32: next stream word, refill exactly at the block boundary (any read position, arbitrary block contents)'),
+    H('blockrng_next_u64', 'C05 C14', note='BlockRng::next_u64 == (second << 32) | first, incl. the straddling cases'),
+    H('blockrng_fill_bytes', 'C05 C14', bounded='2-word blocks, n <= 2 blocks + 3 bytes, every start position', tier='thorough', timeout=1500,
+      note='BlockRng::fill_bytes(n): first n LE bytes of the next ceil(n/4) words, across refills'),
+    H('blockrng64_next_u64', 'C05 C03 C14', note='BlockRng64::next_u64 (discards a pending half)'),
+    H('blockrng64_next_u32_pair', 'C05 C14', note='BlockRng64::next_u32: low half then high half of the same word'),
+    H('blockrng64_fill_bytes', 'C05 C14', bounded='2-word blocks, n <= 2 blocks + 7 bytes, every start position, with/without pending half', tier='thorough', timeout=2400,
+      note='BlockRng64::fill_bytes(n): first n LE bytes of the next ceil(n/8) words; pending half discarded'),
+])
+register('hc128_incrate', [
+    H('hc128_from_seed_le_words', 'C02 C09', crate='rand_hc', note='from_seed: LE words of the seed reach init (recording stub for init)'),
+    H('hc128_seed_from_u64_is_pcg32', 'C09', crate='rand_hc', note='seed_from_u64 == from_seed(PCG32 expansion)'),
+    H('hc128_from_rng_one_seed', 'C09', crate='rand_hc', note='from_rng: exactly one fill_bytes(32), LE words'),
+    H('hc128_try_from_rng', 'C09', crate='rand_hc', note='try_from_rng: same on success; the source error and no generator on failure'),
+    H('hc128_core_debug_is_constant', 'C17', crate='rand_hc', note='{:?} and {:#?} of an arbitrary Hc128Core == "Hc128Core {}"'),
+], module='hc128::rngs_verif_harness')
+for _p, _c in (('isaac', 'IsaacCore'), ('isaac64', 'Isaac64Core')):
+    register(_p + '_incrate', [
+        H(_p + '_from_seed_layout', 'C03 C09', crate='rand_isaac', note=_c + '::from_seed: LE seed words in the first slots, zeros elsewhere, two passes (recording init stub)'),
+        H(_p + '_from_rng_layout', 'C09', crate='rand_isaac', note=_c + '::from_rng (unsafe raw-parts): one fill_bytes of the whole slot array, LE words, two passes', timeout=2400),
+        H(_p + '_try_from_rng', 'C09', crate='rand_isaac', note=_c + '::try_from_rng: same on success; the source error and no generator on failure', timeout=2400),
+        H(_p + '_core_debug_is_constant', 'C17', crate='rand_isaac', note='{:?} / {:#?} of an arbitrary core == "%s {}"' % _c),
+    ], module=_p + '::rngs_verif_harness')
